@@ -370,15 +370,20 @@ func TestAuthzPersist(t *testing.T) {
 		}
 		var c struct {
 			Steps []struct {
-				A string `json:"a"`
-				C string `json:"c"`
-				K int    `json:"k"`
+				A  string `json:"a"`
+				C  string `json:"c"`
+				K  int    `json:"k"`
+				Kv int    `json:"kv"`
 			} `json:"steps"`
-			Reg  []string        `json:"reg"`
+			Reg  json.RawMessage `json:"reg"`
 			Acls json.RawMessage `json:"acls"`
 		}
 		if err := json.Unmarshal(payload, &c); err != nil {
 			t.Fatal(err)
+		}
+		expReg := map[string]int{}
+		if len(c.Reg) > 0 && c.Reg[0] == '{' {
+			_ = json.Unmarshal(c.Reg, &expReg)
 		}
 		expAcl := map[string]int{}
 		if len(c.Acls) > 0 && c.Acls[0] == '{' {
@@ -400,7 +405,7 @@ func TestAuthzPersist(t *testing.T) {
 		for _, st := range c.Steps {
 			switch st.A {
 			case "register":
-				core.RegisterClient(&security.ClientInfo{ClientID: st.C, PublicKey: []byte("key-" + st.C)})
+				core.RegisterClient(&security.ClientInfo{ClientID: st.C, PublicKey: []byte(fmt.Sprintf("key-%s-v%d", st.C, st.Kv))})
 			case "unregister":
 				core.RegisterClient(&security.ClientInfo{ClientID: st.C, Deleted: true})
 			case "setacl":
@@ -412,15 +417,19 @@ func TestAuthzPersist(t *testing.T) {
 			}
 		}
 		r := Result{Idx: idx, Adapter: "security"}
-		var gotReg []string
-		for k := range core.GetClients() {
-			gotReg = append(gotReg, k)
+		// registered clients with the key they registered last
+		var gotReg, wantReg []string
+		for k, ci := range core.GetClients() {
+			gotReg = append(gotReg, k+"="+string(ci.PublicKey))
+		}
+		for k, kv := range expReg {
+			wantReg = append(wantReg, fmt.Sprintf("%s=key-%s-v%d", k, k, kv))
 		}
 		sort.Strings(gotReg)
-		sort.Strings(c.Reg)
+		sort.Strings(wantReg)
 		sum.Checks += 2
-		if fmt.Sprint(gotReg) != fmt.Sprint(c.Reg) {
-			r.Divs = append(r.Divs, Divergence{Kind: "clients", Adapter: "security", Query: c.Steps, Expected: c.Reg, Actual: gotReg})
+		if fmt.Sprint(gotReg) != fmt.Sprint(wantReg) {
+			r.Divs = append(r.Divs, Divergence{Kind: "clients", Adapter: "security", Query: c.Steps, Expected: wantReg, Actual: gotReg})
 		}
 		gotAcl := map[string]string{}
 		for k, v := range core.GetAllAccessControls() {
